@@ -17,6 +17,7 @@ import Drv.DramFifo
 import Drv.Avalon
 import Drv.Wishbone
 import Drv.Axi
+import Drv.Cdc
 open DrvUtil
 
 def main (args : List String) : IO UInt32 := do
@@ -44,6 +45,7 @@ def main (args : List String) : IO UInt32 := do
   | ["wbn2w"] => foldLines i o none drvWbN2W; return 0
   | ["axi"] => foldLines i o none drvAxi; return 0
   | ["aximon"] => foldLines i o none drvAxiMon; return 0
+  | ["cdc"] => foldLines i o none drvCdc; return 0
   | ["injector"] => foldLines i o none drvInjector; return 0
   | ["ratemon"] => foldLines i o none drvRateMon; return 0
   | ["rateconv"] => foldLines i o none drvRateConv; return 0
